@@ -20,6 +20,8 @@ func init() {
 
 func runC14(r *engine.Run) {
 	r.Rule("KEY-own-hash", "at every write site of a node store the key is the hash of the very node value written: insertNode (stamp, hash, put), UpdateChanges (keys[i] = GetHashBytes(nodes[i])), PNodeDB.PutNode/MultiPutNode (Encode() of the given node under the given key), MemoryNodeDB.putNode and LevelNodeDB.putNode (given key and node passed on unchanged)")
+	r.Rule("COPY-value", "the stored value wrapper hands out and takes in copies: SecureSerializableValue.MarshalMsg returns a buffer that does not alias its own, UnmarshalMsg keeps a buffer that does not alias its argument (a reader or writer that reuses its slice must not change a node behind its hash)")
+	r.Rule("AGREE-lockstep", "MergeState builds the key list and the node list in lock step: every block that appends to or resets one of them does the same to the other, so that keys[i] always belongs to nodes[i] when they are handed to MultiPutNode")
 	r.Rule("AGREE-typecode", "GetSerializationPrefix (type -> code) and CreateNode (code -> constructor) are inverse on the four node types")
 	r.Rule("AGREE-origin", "OriginTracker.Write and OriginTracker.Read use the same (byte order, field) sequence; writeNodePrefix and CreateNode agree on the header order (one code byte, then the origin tracker, then the body)")
 	r.Rule("AGREE-fields", "for each node type the number of separators written by encode (with constant loop multiplicity) equals the number of separator scans in Decode, the fields are written and read in the same order, child keys are hex on both sides and the node key raw on both sides, and the only fields that may contain a separator byte (value bytes, raw node key) are written after the last separator")
@@ -29,6 +31,8 @@ func runC14(r *engine.Run) {
 	agreeTypeCode(r)
 	agreeOrigin(r)
 	agreeFields(r)
+	copyValue(r, "COPY-value")
+	lockstep(r)
 }
 
 func keyOwnHash(r *engine.Run) {
@@ -516,4 +520,139 @@ func agreeFields(r *engine.Run) {
 	dHex := usesCall(pkgUtil, "ExtensionNode", "Decode", "DecodeString") || usesCall(pkgUtil, "ExtensionNode", "Decode", "fromHex")
 	r.Check(eHex == dHex, rule, "ExtensionNode|node key raw", "core/util/mpt_node.go:0", "node key raw on both sides", fmt.Sprintf("extension node key: hex on encode=%v, hex on decode=%v", eHex, dHex))
 	r.Min(rule, 9)
+}
+
+// ---- COPY-value -----------------------------------------------------------------
+
+func copyValue(r *engine.Run, rule string) {
+	m := r.Fn(rule, pkgUtil, "SecureSerializableValue", "MarshalMsg")
+	u := r.Fn(rule, pkgUtil, "SecureSerializableValue", "UnmarshalMsg")
+	spec := engine.FlowSpec{
+		Irrelevant: engine.NoRefs,
+		Param:      func(p *ssa.Parameter, i int) engine.Label { return engine.ParamLabel(i) },
+		Call: func(c ssa.CallInstruction, arg func(ssa.Value) engine.Label) (engine.Label, bool) {
+			if b, ok := c.Common().Value.(*ssa.Builtin); ok {
+				switch b.Name() {
+				case "append":
+					return arg(c.Common().Args[0]), true
+				case "copy", "len", "cap":
+					return 0, true
+				}
+			}
+			return 0, false
+		},
+	}
+	if m != nil {
+		fl := engine.RunFlow(m, spec)
+		good := true
+		for _, ret := range engine.Returns(m) {
+			if len(ret.Results) > 0 && fl.Of(ret.Results[0])&engine.ParamLabel(0) != 0 {
+				good = false
+			}
+		}
+		r.Check(good, rule, fn(m), r.P.Pos(m.Pos()), "returns a buffer that does not alias the stored one", "MarshalMsg returns the value's own buffer: a reader that modifies the bytes it got from a lookup changes the stored node behind its hash")
+	}
+	if u != nil {
+		fl := engine.RunFlow(u, spec)
+		good := true
+		n := 0
+		engine.Instrs(u, func(in ssa.Instruction) {
+			if st, ok := in.(*ssa.Store); ok {
+				if fld := engine.FieldOf(st.Addr); fld != nil && fld.Name() == "Buffer" {
+					n++
+					if fl.Of(st.Val)&engine.ParamLabel(1) != 0 {
+						good = false
+					}
+				}
+			}
+		})
+		r.Check(good && n > 0, rule, fn(u), r.P.Pos(u.Pos()), "keeps a buffer that does not alias its argument", "UnmarshalMsg keeps the caller's slice: a writer that reuses its buffer changes the stored node behind its hash")
+	}
+	// Insert wraps the marshalled bytes, not the caller's value object
+	if ins := r.Fn(rule, pkgUtil, "MerklePatriciaTrie", "Insert"); ins != nil {
+		good := false
+		engine.Instrs(ins, func(in ssa.Instruction) {
+			if st, ok := in.(*ssa.Store); ok {
+				if fld := engine.FieldOf(st.Addr); fld != nil && fld.Name() == "Buffer" {
+					if ex, ok := st.Val.(*ssa.Extract); ok {
+						if c, ok := ex.Tuple.(*ssa.Call); ok {
+							if _, ok := engine.IsMethodCall(c, "MarshalMsg"); ok {
+								good = true
+							}
+						}
+					}
+				}
+			}
+		})
+		r.Check(good, rule, fn(ins)+"|stored value", r.P.Pos(ins.Pos()), "the trie stores the bytes MarshalMsg produced", "Insert does not wrap the freshly marshalled bytes of the value")
+	}
+}
+
+// ---- AGREE-lockstep --------------------------------------------------------------
+
+func lockstep(r *engine.Run) {
+	const rule = "AGREE-lockstep"
+	f := r.Fn(rule, pkgUtil, "", "MergeState")
+	if f == nil {
+		return
+	}
+	var mp *ssa.Call
+	all := append([]*ssa.Function{f}, f.AnonFuncs...)
+	for _, g := range all {
+		engine.Instrs(g, func(in ssa.Instruction) {
+			if c, ok := in.(*ssa.Call); ok && c.Call.IsInvoke() && c.Call.Method.Name() == "MultiPutNode" {
+				mp = c
+			}
+		})
+	}
+	if mp == nil {
+		r.Fail(rule, fn(f)+"|MultiPutNode", r.P.Pos(f.Pos()), "MergeState no longer writes through MultiPutNode")
+		return
+	}
+	cellOf := func(v ssa.Value) ssa.Value {
+		if ld, ok := v.(*ssa.UnOp); ok {
+			return ld.X
+		}
+		return v
+	}
+	kc, nc := cellOf(mp.Call.Args[0]), cellOf(mp.Call.Args[1])
+	// blocks that store to each cell (in the function and its closures; captured cells are free variables there)
+	writes := func(cell ssa.Value) map[string]bool {
+		out := map[string]bool{}
+		name := ""
+		if al, ok := cell.(*ssa.Alloc); ok {
+			name = al.Comment
+		}
+		if fv, ok := cell.(*ssa.FreeVar); ok {
+			name = fv.Name()
+		}
+		for _, g := range all {
+			engine.Instrs(g, func(in ssa.Instruction) {
+				st, ok := in.(*ssa.Store)
+				if !ok {
+					return
+				}
+				match := st.Addr == cell
+				if fv, ok := st.Addr.(*ssa.FreeVar); ok && fv.Name() == name {
+					match = true
+				}
+				if al, ok := st.Addr.(*ssa.Alloc); ok && al.Comment == name && name != "" {
+					match = true
+				}
+				if match {
+					out[fmt.Sprintf("%s#%d", fn(g), st.Block().Index)] = true
+				}
+			})
+		}
+		return out
+	}
+	kw, nw := writes(kc), writes(nc)
+	same := len(kw) == len(nw) && len(kw) > 0
+	for b := range kw {
+		if !nw[b] {
+			same = false
+		}
+	}
+	r.Check(same, rule, fn(f)+"|keys/nodes", r.P.Pos(mp.Pos()), fmt.Sprintf("both lists are written in the same %d block(s)", len(kw)),
+		fmt.Sprintf("the key list is written in %d block(s) but the node list in %d: after a partial flush or reset keys[i] no longer belongs to nodes[i], so nodes are stored under foreign hashes", len(kw), len(nw)))
 }
